@@ -122,3 +122,10 @@ from stonelint import mutation
 mref = mutation.build_reference(pm1)
 json.dump(mref, open(os.path.join(HERE, 'reference', 'mutations.json'), 'w'), indent=0, sort_keys=True)
 print(len(mref['functions']), 'functions with in-place updates or handlers')
+
+# order of updates and reads of one variable (stonelint/orderdrift.py)
+from stonelint import orderdrift
+oref = orderdrift.build_reference(pm1)
+json.dump(oref, open(os.path.join(HERE, 'reference', 'order.json'), 'w'), indent=0, sort_keys=True)
+print(len(oref['functions']), 'functions with update/read pairs,',
+      sum(len(v) for v in oref['functions'].values()), 'pairs')
